@@ -32,9 +32,12 @@ RULE = ("one injected exception per run at library call boundary k, k = 1..N for
         "the stub misbehaved; distinct by (exporter, document, target state, k | stub)")
 ASSUMPTIONS = ["fault model: Python exceptions raised at function entries inside src/rtflite; faults inside the "
                "standard library (disk full during write_text/shutil.move) are not injected",
-               "converter stubs subclass LibreOfficeConverter and bypass the executable lookup (LibreOffice is absent)",
+               "converter stubs subclass LibreOfficeConverter and bypass the executable lookup (LibreOffice is absent); "
+               "in addition the REAL LibreOfficeConverter is driven against a fake soffice executable that succeeds, "
+               "fails before/after writing, or writes nothing",
                "directories created for a missing parent path are not debris"]
-DECIDING = ["faults_injected", "faults_propagated", "fs_snapshots_compared", "stub_runs", "clean_runs_verified"]
+DECIDING = ["faults_injected", "faults_propagated", "fs_snapshots_compared", "stub_runs", "clean_runs_verified",
+            "real_converter_runs"]
 FLOOR = {"quick": 2500, "thorough": 20000}
 EXHAUSTIVE_NOTE = {"quick": "every call boundary of write_rtf and write_docx for one coloured document, target present",
                    "thorough": "every call boundary of write_rtf/write_docx/write_html/write_pdf x 4 documents x target present/absent"}
@@ -54,6 +57,7 @@ def plan(tier, seed):
     else:
         combos = [(e, d, t) for e in EXPORTERS for d in ("col_a", "paged", "multi_a", "figure")
                   for t in ("present", "absent")]
+        combos += [("real:docx", "col_a", "present"), ("real:html", "col_a", "absent")]
         k = 1
     for e, d, t in combos:
         for i in range(k):
@@ -68,8 +72,44 @@ def classify(v):
     return (v.get("detail") or {}).get("mech")
 
 
-def make_stub(mode):
+FAKE_SOFFICE = r"""#!/bin/sh
+# stand-in for the LibreOffice executable (absent in this sandbox), driven by FAKE_SOFFICE_MODE
+if [ "$1" = "--version" ]; then echo "LibreOffice 24.8.3.2 0123abcd"; exit 0; fi
+while [ $# -gt 0 ]; do
+  case "$1" in
+    --convert-to) fmt="$2"; shift 2 ;;
+    --outdir) out="$2"; shift 2 ;;
+    -*) shift ;;
+    *) in="$1"; shift ;;
+  esac
+done
+stem=$(basename "$in" .rtf)
+produce() { printf 'CONVERTED[%s]:' "$fmt" > "$out/$stem.$fmt"; cat "$in" >> "$out/$stem.$fmt"; }
+case "$FAKE_SOFFICE_MODE" in
+  ok) produce ;;
+  fail_before) echo "conversion failed" >&2; exit 3 ;;
+  fail_after) produce; echo "crashed late" >&2; exit 3 ;;
+  no_output) exit 0 ;;
+  html_resources) produce; mkdir "$out/$stem.${fmt}_files"; printf 'IMG' > "$out/$stem.${fmt}_files/img.png" ;;
+esac
+exit 0
+"""
+
+
+def make_stub(mode, arena=None):
     from rtflite.convert import LibreOfficeConverter
+    if mode.startswith("real:"):
+        # the REAL LibreOfficeConverter (version check, command line, subprocess, error handling)
+        # driving a fake executable
+        exe = os.path.join(arena.base, "soffice")
+        if not os.path.exists(exe):
+            with open(exe, "w") as f:
+                f.write(FAKE_SOFFICE)
+            os.chmod(exe, 0o755)
+        os.environ["FAKE_SOFFICE_MODE"] = mode.split(":", 1)[1]
+        conv = LibreOfficeConverter(executable_path=exe)
+        conv.produced = None
+        return conv
 
     class Stub(LibreOfficeConverter):
         def __init__(self):
@@ -207,13 +247,15 @@ def judge(ctx, case, arena, target, before, raised, tap, stub, exporter, events,
     data = open(target, "rb").read()
     if exporter == "rtf":
         want = (tap.last or "").encode("utf-8")
+    elif mode.startswith("real:"):
+        want = b"CONVERTED[" + exporter.encode() + b"]:" + (tap.last or "").encode("utf-8")
     else:
         want = stub.produced
     if want is None or data != want:
         bad("export returned but the target does not hold the expected content",
             got=data[:60].decode("latin-1"), want=(want or b"")[:60].decode("latin-1"))
     allowed = {rel}
-    if exporter == "html" and mode == "html_resources":
+    if exporter == "html" and mode.endswith("html_resources"):
         allowed |= {res_rel, os.path.join(res_rel, "img.png")}
         if os.path.join(res_rel, "img.png") not in after:
             bad("HTML resource folder did not end up next to the target", mech=None)
@@ -222,7 +264,7 @@ def judge(ctx, case, arena, target, before, raised, tap, stub, exporter, events,
             bad(f"HTML resource folder holds {inside}, expected exactly the converter's resources",
                 mech="html_resources_nested_in_stale_folder")
     extra = (new | changed | gone) - allowed
-    if exporter == "html" and mode == "html_resources":
+    if exporter == "html" and mode.endswith("html_resources"):
         # stale content of a previous export's resource folder is replaced (checked above)
         extra = {k for k in extra if not k.startswith(res_rel + os.sep)}
     if extra:
@@ -234,7 +276,7 @@ def run_one(ctx, env, exporter, docname, target_state, k=None, stub_mode="ok", l
     ext = {"rtf": "rtf", "docx": "docx", "html": "html", "pdf": "pdf"}[exporter]
     target = arena.reset(target_state, ext)
     before = snapshot(arena.out)
-    stub = make_stub(stub_mode) if exporter != "rtf" else None
+    stub = make_stub(stub_mode, arena) if exporter != "rtf" else None
     case = {"exporter": exporter, "doc": docname, "target": target_state, "k": k, "stub": stub_mode}
     tap.last = None
     trace.start()
@@ -296,8 +338,13 @@ def run_shard(desc, ctx):
     try:
         if desc["kind"] == "sweep":
             e, d, t = desc["exporter"], desc["doc"], desc["target"]
+            real = e.startswith("real:")
+            if real:
+                e = e.split(":", 1)[1]
             # clean run: count boundaries and verify the success rule
             stub_mode = "html_resources" if e == "html" else "ok"
+            if real:
+                stub_mode = "real:" + stub_mode
             n, raised = run_one(ctx, env, e, d, t, k=None, stub_mode=stub_mode)
             n2, _ = run_one(ctx, env, e, d, t, k=None, stub_mode=stub_mode)
             ctx.count("clean_runs_verified", 2)
@@ -321,6 +368,16 @@ def run_shard(desc, ctx):
                                 continue
                             ctx.count("stub_runs")
                             run_one(ctx, env, e, rng.choice(["col_a", "plain3", "figure"]), t, stub_mode=m)
+                # the real LibreOfficeConverter driving a fake soffice executable
+                for e in ("docx", "pdf", "html"):
+                    for m in ("real:ok", "real:fail_before", "real:fail_after", "real:no_output",
+                              "real:html_resources"):
+                        if m == "real:html_resources" and e != "html":
+                            continue
+                        for t in ("absent", "present", "nested"):
+                            ctx.count("stub_runs")
+                            ctx.count("real_converter_runs")
+                            run_one(ctx, env, e, rng.choice(["col_a", "plain3"]), t, stub_mode=m)
                 # encode failure inside each exporter (document that raises ValueError)
                 for e in EXPORTERS:
                     for t in ("absent", "present", "nested"):
